@@ -113,6 +113,7 @@ def generate(rng, seed, index, tier):
                 solvers.append({"sid": nsolv, "pid": ok[int(rng.integers(0, len(ok)))], "prm": len(plist) - 1, "scaling": None, "kind": "integration"})
                 nsolv += 1
     made = set()
+    solved = set()
     nops = int(rng.integers(2, 8))
     last = None
     for _ in range(nops):
@@ -138,6 +139,10 @@ def generate(rng, seed, index, tier):
             if rng.random() < 0.12 and s.get("kind") != "integration":
                 # somebody else solved the very same problem with the same settings in single precision just before
                 op["pre_single"] = True
+            if s["sid"] in solved and s.get("kind") != "integration" and rng.random() < 0.2:
+                # warm start derived from what the previous solve on this solver returned: the same point, or its
+                # components in another order (a point with the same norm and the same sum as the last one evaluated)
+                op["warm"] = str(rng.choice(["reversed", "rolled", "same"], p=[0.5, 0.3, 0.2]))
             r = rng.random()
             if r < 0.15:
                 op["clock"] = {"expire_at_read": int(rng.integers(2, 40))}
@@ -146,6 +151,7 @@ def generate(rng, seed, index, tier):
             elif r < 0.4:
                 op["faults"] = [{"dev": "eval", "comp": str(rng.choice(["obj", "grad", "hess"])), "at": int(rng.integers(2, 30)), "kind": "nan"}]
         hist.append(op)
+        solved.add(op["sid"])
         last = op
     w = gen.base_world(seed, ID, index, None, [], [], {}, case={"problems": problems, "params_list": plist, "history": hist, "reuse_buffers": bool(rng.random() < 0.3)})
     return w
@@ -182,7 +188,10 @@ def _op_world(world, op, solver_def, shift=0.0):
 
 def _isolated(w):
     ex = execute(w, params=("default" if w.get("params_default") else None))
-    return {"traj": ex.traj_digest(), "res": ex.result_digest(), "outcome": ex.outcome, "trials": len(ex.trials)}
+    x = None
+    if ex.result is not None and getattr(ex.result, "x", None) is not None:
+        x = [float(v) for v in ex.result.x]
+    return {"traj": ex.traj_digest(), "res": ex.result_digest(), "outcome": ex.outcome, "trials": len(ex.trials), "x": x}
 
 
 def case(world):
@@ -208,11 +217,25 @@ def case(world):
             plan.append((op, defs[op["sid"]]))
     # 1. isolated twins, forked while this process is still pristine
     twins = []
+    derived = {}
+    last_twin = {}
     for (op, d) in plan:
+        if op.get("warm") and last_twin.get(op["sid"]) is not None and last_twin[op["sid"]].get("x") is not None:
+            # the start is a function of the previous *isolated* result (equal to the one of the history on a tree
+            # where the property holds), so both sides of the comparison get the same start
+            import numpy as np
+
+            xp = np.array(last_twin[op["sid"]]["x"], float)
+            sp_ = c["problems"][d["pid"]]
+            if len(xp) == sp_["n"] and np.all(np.isfinite(xp)):
+                xp = {"reversed": xp[::-1], "rolled": np.roll(xp, 1), "same": xp}[op["warm"]]
+                derived[id(op)] = np.clip(xp, np.array(sp_["xl"], float), np.array(sp_["xu"], float))
+                op = dict(op, x0=derived[id(op)])
         kind, payload = engine.run_one_forked(_isolated, _op_world(world, op, d), limit=60.0)
         if kind != "ok":
             raise RuntimeError("isolated twin failed: %s %s" % (kind, str(payload)[-400:]))
         twins.append(payload)
+        last_twin[op["sid"]] = payload
     # 2. the history, in this process
     problems = {}
     params = {}
@@ -230,6 +253,9 @@ def case(world):
             continue
         i += 1
         d = defs[op["sid"]]
+        if id(op) in derived:
+            op = dict(op, x0=derived[id(op)])
+            bump("ops.warm_start_from_previous_result")
         w = _op_world(world, op, d, shift=1000.0 * (i + 1))
         if d["pid"] not in problems:
             problems[d["pid"]] = SimProblem(c["problems"][d["pid"]])
